@@ -483,31 +483,36 @@ Proof.
     destruct Hsinv. apply rel_intro; assumption. }
   unfold sstep. rewrite <- Hrun, Hr. cbn [negb].
   destruct Hsinv as [Hinv Hstop].
-  destruct o as [|k|k|k v| | |]; cbn [expand run] in H; unfold step in H; rewrite Hr in H; cbn [negb] in H.
-  - (* Connect *)
+  assert (Hconnect : forall s' outs, run s [Accept true] = Some (s', outs) ->
+            rel m s' {| served := (if (capacity m <=? length (served ss))%nat then tl (served ss) else served ss) ++ [accepted ss];
+                        accepted := accepted ss + 1; up := true; value := value ss |}).
+  { clear H s' outs. intros s' outs H. cbn [run] in H. unfold step in H. rewrite Hr in H. cbn [negb] in H.
     destruct (add (trk s)) as [[[t' id] ev]|] eqn:Hadd; [|discriminate]. inversion H; subst. clear H.
     assert (Hid : next_id (trk s) <> u128_max).
-    { intros E. unfold add, get_next_id in Hadd.
+      { intros E. unfold add, get_next_id in Hadd.
       destruct (if (max_sessions (trk s) <=? length (sessions (trk s)))%nat then _ else _) as [x e0] in Hadd.
       cbn [next_id] in Hadd. rewrite E, N.eqb_refl in Hadd. discriminate. }
     destruct (add_inv _ _ _ _ Hinv Hadd) as (Hi' & _ & _ & Hm').
     destruct (add_spec _ Hinv Hid) as (kept & ev' & Heq & Hc). rewrite Heq in Hadd. inversion Hadd; subst. clear Hadd.
     assert (Hlen : length (served ss) = length (sessions (trk s))) by (rewrite <- Hids; apply map_length).
     assert (Hk : all_alive kept /\ ids kept = (if (capacity m <=? length (served ss))%nat then tl (served ss) else served ss)).
-    { unfold capacity. rewrite Hlen, <- Hmax. destruct Hc as [(Hl & -> & _)|(Hl & v & a & E & _)].
+      { unfold capacity. rewrite Hlen, <- Hmax. destruct Hc as [(Hl & -> & _)|(Hl & v & a & E & _)].
       - destruct (Nat.leb_spec (max_sessions (trk s)) (length (sessions (trk s)))); [lia|]. auto.
       - destruct (Nat.leb_spec (max_sessions (trk s)) (length (sessions (trk s)))); [|lia].
         rewrite E in Hal, Hids. split; [now inversion Hal|]. rewrite <- Hids. reflexivity. }
     destruct Hk as [Hka Hki].
     apply rel_intro; cbn [trk running store max_sessions next_id sessions served accepted up value].
-    + exact Hi'.
-    + discriminate.
-    + exact Hmax.
-    + apply Forall_app. split; [exact Hka|repeat constructor].
-    + rewrite ids_app, Hki. cbn. now rewrite Hnext.
-    + now rewrite Hnext.
-    + reflexivity.
-    + exact Hst.
+      + exact Hi'.
+      + discriminate.
+      + exact Hmax.
+      + apply Forall_app. split; [exact Hka|repeat constructor].
+      + rewrite ids_app, Hki. cbn. now rewrite Hnext.
+      + now rewrite Hnext.
+      + reflexivity.
+      + exact Hst.
+  }
+  destruct o as [| |k|k|k v| | |]; try (cbn [expand] in H; exact (Hconnect _ _ H));
+    cbn [expand run] in H; unfold step in H; rewrite Hr in H; cbn [negb] in H.
   - (* ClientClose *)
     cbn [negb with_sessions running] in H. rewrite Hr in H. cbn [negb] in H. inversion H; subst. clear H.
     apply rel_intro; unfold remove; cbn [trk running store with_sessions max_sessions next_id sessions served accepted up value];
